@@ -265,13 +265,18 @@ def sweep_batch(arg):
     cline, w, ends = arg
     job = [cline, "read -", "meta 1", "timeout 60000", "chunk 8"]
     for e in ends:
-        job += ["content %s" % sweep_content(w, e).hex(), "hist W"]
+        # ... written in one call, and with the 80 bytes around the hit delivered one byte per call (a writer that treats
+        # small writes below the minimum specially sees the window in pieces)
+        job += ["content %s" % sweep_content(w, e).hex(), "hist W", "hist w%d,%s,W" % (max(1, e - 60), ",".join(["w1"] * 80))]
     cs = core.drv("writehist", "\n".join(job) + "\n", timeout=3000)
     out = []
-    for c in cs:
+    for c, c2 in zip(cs[0::2], cs[1::2]):
         wr = c.first("W")
         ok = c.done and wr is not None and wr.get("close") == "1" and wr.get("fail") == "0"
-        out.append((c.first("M") if ok else None, c.status() if not ok else None))
+        w2 = c2.first("W")
+        ok2 = c2.done and w2 is not None and w2.get("close") == "1" and w2.get("fail") == "0"
+        same = ok and ok2 and wr["file"] == w2["file"]
+        out.append((c.first("M") if ok else None, c.status() if not ok else None, same))
     return out
 
 
@@ -292,8 +297,12 @@ def hit_window_sweep(ctx):
                 ends += list(range(effmax - 50, effmax + 51))
             jobs = [(cline, w, ch) for ch in core.chunks(ends, 26)]
             for part, ch in zip(core.pmap(sweep_batch, jobs), core.chunks(ends, 26)):
-                for e, (m, st) in zip(ch, part):
-                    ctx.states += 1; ctx.evaluations += 1; ctx.transitions += 1
+                for e, (m, st, same) in zip(ch, part):
+                    ctx.states += 2; ctx.evaluations += 2; ctx.transitions += 83
+                    if m is not None and not same:
+                        ctx.violation({"check": "C16", "content": "hit-window", "comp": "none", "predicate": "segmentation-changes-output", "segmentation": "one-byte-burst"},
+                                      "rolling-hash hit placed at offset %d (%s): the file written with the 80 bytes around the hit delivered one byte per call differs "
+                                      "from the file written in one call" % (e, cname), {"sweep": True, "burst": True, "w": w.hex(), "end": e, "cline": cline, "bounds": [cmin, cmax], "kind": "rand", "n": 0})
                     case = {"sweep": True, "w": w.hex(), "end": e, "cline": cline, "bounds": [cmin, cmax], "kind": "rand", "n": 0}
                     klass = {"check": "C16", "content": "hit-window", "comp": "none"}
                     if m is None:
@@ -407,9 +416,11 @@ def replay(case, quiet=True):
             return {"violated": f1 is None, "detail": str(s1)}
         return {"violated": chunk_table(m1)[0][1:] != chunk_table(m2)[0][1:]}
     if case.get("sweep"):
-        (m, st), = sweep_batch((case["cline"], bytes.fromhex(case["w"]), [case["end"]]))
+        (m, st, same), = sweep_batch((case["cline"], bytes.fromhex(case["w"]), [case["end"]]))
         if m is None:
             return {"violated": True, "detail": str(st)}
+        if case.get("burst"):
+            return {"violated": not same}
         v = bounds_ok(chunk_table(m)[0], *case["bounds"])
         return {"violated": bool(v), "detail": v}
     content = gen(case["kind"], case["n"], seed)
